@@ -1075,6 +1075,8 @@ class Filterbank(ABC):
             raise ValueError(msg)
         subfactor = self.header.nchans // nsub
         chan_delays = self.header.get_dmdelays(dm)
+        # The kernel needs non-negative delays: refer them to the earliest channel
+        chan_delays = chan_delays - min(0, int(chan_delays.min()))
         max_delay = int(chan_delays.max())
         gulp = max(2 * max_delay, gulp)
         # must be memset to zero in c code
